@@ -33,3 +33,26 @@ Example C05_half_close :
   let s := run (init 2 1) [Write [1]; Shutdown; DelSR; DelSR] in
   snd (step s (Read 4)) = OData [1] /\ snd (step (fst (step s (Read 4))) (Read 4)) = OEof.
 Proof. vm_compute. auto. Qed.
+
+(* ---- the flow model is the projection of the endpoint model onto one flow (Mux/Project.v):
+   the endpoint's function acts on the stream object as the flow label does, returns the same
+   result and puts on the wire the frames the flow model puts in flight ---- *)
+From PV Require Import Mux.Sys Mux.Project.
+
+Theorem C05_shutdown_projects : forall f sid oid s y f' res y' o,
+  live_stream (f_ep f) sid = Some (oid, s) -> e_tx_closed (f_ep f) = false -> S_view y s ->
+  do_shutdown f sid = (f', res) -> F.step y F.Shutdown = (y', o) ->
+  res = enc_out o /\
+  exists s', get_stream (f_ep f') oid = Some s' /\ S_view y' s' /\ same_R s s' /\ st_id s' = st_id s /\
+  exists added, F.wsr y' = F.wsr y ++ added /\ f_out f' = f_out f ++ map (wire (st_id s)) added.
+Proof. exact shutdown_projects. Qed.
+
+Theorem C05_finish_projects : forall f id wd oid s x r f' rr,
+  slot_get (e_slots (f_ep f)) id = Some (SEstablished oid) -> get_stream (f_ep f) oid = Some s ->
+  R_view x (e_rwnd (f_ep f)) s -> F.wsr x = F.FFin :: r ->
+  process_frame f (Finish id) wd = (f', rr) ->
+  let x' := fst (F.step x F.DelSR) in
+  rr = RxContinue /\ F.wsr x' = r /\
+  exists s', get_stream (f_ep f') oid = Some s' /\ R_view x' (e_rwnd (f_ep f)) s' /\ same_S s s' /\
+    st_id s' = st_id s /\ e_slots (f_ep f') = e_slots (f_ep f) /\ f_out f' = f_out f.
+Proof. exact finish_projects. Qed.
